@@ -22,6 +22,7 @@
 
 from abc import abstractmethod
 import datetime
+import urllib.parse
 from typing import Any, Callable
 
 from dashlive.mpeg.mp4 import EventMessageBox
@@ -58,6 +59,10 @@ class EventBase(ObjectWithFields):
             return value
         return int_or_default
 
+    @staticmethod
+    def quoted_string(val: Any) -> str:
+        return urllib.parse.quote_plus(str(val))
+
     @classmethod
     def get_dash_options(cls) -> list[DashOption]:
         """
@@ -92,7 +97,9 @@ class EventBase(ObjectWithFields):
                 cgi_type = '<iso-datetime>'
                 cgi_choices = tuple([str(dflt)])
             else:
+                # free text: it has to be quoted when written into a URL
                 from_string = default_to_string
+                to_string = cls.quoted_string
                 cgi_type = None
                 if dflt is not None:
                     cgi_choices = tuple(str(dflt))
